@@ -35,7 +35,7 @@ var namesFull = []string{
 	"a", "a/a", "a/a/a", "./a", "a/./a", "a//a", "a/", "out2", "out2/a",
 	"/a", "//a", "/a/a", "/out2/a",
 	".", "", "..", "/..",
-	"../a", "../a/a", "../out2", "../out2/a", "../out-evil/a", "../../a", "./../a",
+	"../a", "../a/a", "../out2", "../out2/a", "../out-evil/a", "../out.bak/a", "../../a", "./../a",
 	"a/../a", "a/../../a", "a/../..", "a/..", "/../a", "/../out2/a",
 	longSeg, longSeg + "/a", "a/" + longSeg, "../" + longSeg,
 }
@@ -378,7 +378,7 @@ func classify(ep string, c imgCase, outside []change, stage string) []viol {
 	ignoreMode := (ep == "raw" || ep == "squashed") && unpackCfgs[c.Cfg].Res == unpack.SymlinkIgnore
 	for _, ch := range outside {
 		area, _ := relS(ch.Path)
-		sibling := area == "out2" || area == "out-evil"
+		sibling := area == "out2" || area == "out-evil" || area == "out.bak"
 		switch {
 		case ch.Kind == "created" && ch.After.Type == "d":
 			if area == "tmp" && lab == "layerscan" {
